@@ -28,6 +28,12 @@ def valid_pool(tier):
             {"name": "i", "type": {"type": "record", "name": "Inner", "fields": [{"name": "e", "type": {"type": "enum", "name": "x.E", "symbols": ["A"]}}]}},
             {"name": "j", "type": "Inner"}, {"name": "k", "type": "a.b.Inner"}, {"name": "l", "type": "x.E"},
             {"name": "m", "type": {"type": "fixed", "name": "F", "namespace": "", "size": 3}}, {"name": "n", "type": "F"}]},
+        # a type put into the null namespace (explicit "namespace": "") inside a namespaced record: its full name has no dot
+        {"type": "record", "name": "Outer2", "namespace": "ns", "fields": [
+            {"name": "f", "type": {"type": "record", "name": "Inner2", "namespace": "", "fields": [{"name": "x", "type": "int"}]}}]},
+        {"type": "record", "name": "Outer3", "namespace": "ns", "fields": [
+            {"name": "e", "type": {"type": "enum", "name": "E3", "namespace": "", "symbols": ["A", "B"]}},
+            {"name": "m", "type": {"type": "map", "values": {"type": "fixed", "name": "F3", "namespace": "", "size": 2}}}]},
         {"type": "record", "name": "a.Dotted", "namespace": "ignored", "fields": [{"name": "self", "type": ["null", "a.Dotted"]}, {"name": "rel", "type": ["null", "Dotted"]}]},
         {"type": "record", "name": "WithAttrs", "doc": "d", "aliases": ["Old"], "custom": 1, "fields": [
             {"name": "f", "type": "int", "doc": "fd", "aliases": ["g"], "default": 3, "order": "descending", "x": [1]},
@@ -408,7 +414,8 @@ def run_c13(tier, seed):
         try:
             again = to_parsing_canonical_form(json.loads(got))
             if again != got:
-                res.fail("fixed_point", f"canonical form of the canonical form is {again}", case, rp)
+                res.fail("fixed_point", f"canonical form of the canonical form is {again}", dict(case, _raw=raw, _a=got, _b=again),
+                         f"import json\nfrom fastavro.schema import to_parsing_canonical_form as pcf\nc = pcf({raw!r})\nprint(c)\nprint(pcf(json.loads(c)))\n")
             data = [d for d in gen.data_for(p, ns, rng) if A.CONFORMS(d, p, ns, {})][:4]
             canon_schema = json.loads(got)
             for d in data:
